@@ -279,8 +279,9 @@ type outcome struct {
 	status    int32
 	result    []byte
 	delivered bool
-	outHasArg bool // marker of the plaintext argument found in client->server bytes
-	inHasRes  bool // marker of the plaintext result found in server->client bytes
+	cmdResult []byte // what CallCmd.Reply() hands out (re-encoded), when the call is OK
+	outHasArg bool   // marker of the plaintext argument found in client->server bytes
+	inHasRes  bool   // marker of the plaintext result found in server->client bytes
 	inHasArg  bool
 	outHasRes bool
 }
@@ -331,6 +332,10 @@ func sendOne(cs erpc.Session, serverSess func() erpc.Session, c *caseCfg, idx in
 		if cmd.Status().OK() {
 			o.delivered = true
 			o.result = marshalWith(id, result)
+			// the same result as handed out by the call command (callers draining a shared channel)
+			if rv, _ := cmd.Reply(); rv != nil {
+				o.cmdResult = marshalWith(id, rv)
+			}
 		}
 	} else {
 		stt := cs.Push(pathOf(c), c.arg, st...)
@@ -374,7 +379,25 @@ func fillWire(o *outcome, c *caseCfg, idx int, req, rep []byte) {
 }
 
 // runSession sends all messages of one case, one after the other, over ONE pair of sessions.
-func runSession(msgs []*caseCfg) []*outcome {
+// appSwapKeys: application data the case stores in BOTH session swaps before any message (string
+// keys, among them the literal spellings of the plugin's private keys, which have their own type)
+var appSwapChoices = [][]string{nil, nil, {"0"}, {""}, {"0", ""}, {"user", "0"}, {"trace-id"}, {"1", "accept"}}
+
+func storeAppSwap(s erpc.Session, keys []string) {
+	for i, k := range keys {
+		s.Swap().Store(k, Fmt("app-data-%d", i))
+	}
+}
+
+func vswapKeys(keys []string) string {
+	var it []string
+	for _, k := range keys {
+		it = append(it, VB([]byte(k)))
+	}
+	return VL(it...)
+}
+
+func runSession(msgs []*caseCfg, swapKeys []string) []*outcome {
 	c0 := msgs[0]
 	ps := secure.NewPlugin(srvCode, c0.ks)
 	pc := secure.NewPlugin(cliCode, c0.kc)
@@ -393,6 +416,8 @@ func runSession(msgs []*caseCfg) []*outcome {
 	if ss == nil || cs == nil {
 		Must(fmt.Errorf("could not set up the pair"))
 	}
+	storeAppSwap(cs, swapKeys)
+	storeAppSwap(ss, swapKeys)
 	var outs []*outcome
 	for i, c := range msgs {
 		outs = append(outs, sendOne(cs, func() erpc.Session { return ss }, c, i))
@@ -445,7 +470,7 @@ func render(c *caseCfg, o *outcome) string {
 		return VL(vmarker(o.reqHasSec, o.reqSec), VOpt(o.reqBody, o.reqSeen), VN(int64(o.hCount)), VOpt(o.hArg, o.hCount > 0), VS(statusSym(o.status)))
 	}
 	return VL(vmarker(o.reqHasSec, o.reqSec), VOpt(o.reqBody, o.reqSeen), VN(int64(o.hCount)), VOpt(o.hArg, o.hCount > 0),
-		vmarker(o.repHasSec, o.repSec), VOpt(o.repBody, o.repSeen), VS(statusSym(o.status)), VOpt(o.result, o.delivered))
+		vmarker(o.repHasSec, o.repSec), VOpt(o.repBody, o.repSeen), VS(statusSym(o.status)), VOpt(o.result, o.delivered), VOpt(o.cmdResult, o.delivered))
 }
 
 func handlerMarker(e string) string {
@@ -539,6 +564,9 @@ func oracle(st *Stats, i int, c *caseCfg, o *outcome, human string) {
 		}
 		if c.kind == "call" {
 			if c.handlerOK() {
+				if o.delivered && !bytes.Equal(o.cmdResult, ptRes) {
+					st.Fail(i, "cmd-reply-not-restored", "equal keys: CallCmd.Reply() does not hand out the original result", human)
+				}
 				if o.status != 0 || !o.delivered || !bytes.Equal(o.result, ptRes) {
 					st.Fail(i, "result-not-restored", Fmt("equal keys: caller status %d, result delivered=%v equal=%v", o.status, o.delivered, bytes.Equal(o.result, ptRes)), human)
 				}
@@ -680,9 +708,11 @@ func main() {
 	evals := 0
 	for i := 0; evals < cfg.N; i++ {
 		msgs := genSession(cfg)
-		outs := runSession(msgs)
+		swapKeys := appSwapChoices[cfg.Rng.Intn(len(appSwapChoices))]
+		outs := runSession(msgs, swapKeys)
+		st.Count(Fmt("app-swap-keys:%q", swapKeys))
 		var ins, obs []string
-		seqHuman := Fmt("session of %d: ", len(msgs))
+		seqHuman := Fmt("session of %d (app swap keys %q): ", len(msgs), swapKeys)
 		for k, c := range msgs {
 			seqHuman += Fmt("[%d] %s ; ", k, humanOf(c))
 		}
@@ -698,7 +728,7 @@ func main() {
 			}
 		}
 		st.Count(Fmt("session-length:%d", len(msgs)))
-		w.Add(VL(append([]string{VS("seq")}, ins...)...), VL(obs...))
+		w.Add(VL(append([]string{VS("seq"), vswapKeys(swapKeys)}, ins...)...), VL(obs...))
 		if len(st.Samples) < 4 {
 			st.Samples = append(st.Samples, seqHuman+" => "+VL(obs...)[:min(300, len(VL(obs...)))])
 		}
